@@ -133,7 +133,10 @@ def pat_variant(p):
     if k == "PWild":
         return "_"
     if k == "PIdent":
-        return "_" if not p.get("sub") else pat_variant(p["sub"])
+        if p.get("sub"):
+            return pat_variant(p["sub"])
+        # a capitalised bare identifier in pattern position is a unit variant / constant (`None`)
+        return p["name"] if p["name"][:1].isupper() else "_"
     if k in ("PRef", "PType"):
         return pat_variant(p["pat"])
     return None
